@@ -352,6 +352,81 @@ Qed.
 Lemma trim_space_skip x s : ascii_space x = true -> trim_space (x :: s) = trim_space s.
 Proof. intro H. unfold trim_space. now rewrite drop_while_skip. Qed.
 
+(* ------------------------------------------------------------------ *)
+(* parseSdp2RawContext, one line at a time *)
+Definition optl (md : option media_desc) : list media_desc := match md with Some d => [d] | None => [] end.
+Definition new_md (m : m_line) : media_desc :=
+  {| md_m := m; md_rtpmap := rtpmap_zero; md_fmtp := None; md_control := [] |}.
+
+Lemma raw_step_plain l rest acc md :
+  has_prefix k_m l = false -> has_prefix k_rtpmap l = false ->
+  has_prefix k_fmtp l = false -> has_prefix k_control l = false ->
+  raw_loop (l :: rest) acc md = raw_loop rest acc md.
+Proof. intros H1 H2 H3 H4. cbn [raw_loop]. rewrite H1, H2, H3, H4. reflexivity. Qed.
+
+Lemma raw_step_m l m rest acc md :
+  has_prefix k_m l = true -> has_prefix k_rtpmap l = false ->
+  has_prefix k_fmtp l = false -> has_prefix k_control l = false -> parse_m l = Ok m ->
+  raw_loop (l :: rest) acc md = raw_loop rest (acc ++ optl md) (Some (new_md m)).
+Proof. intros H1 H2 H3 H4 H5. cbn [raw_loop]. rewrite H1, H2, H3, H4, H5. reflexivity. Qed.
+
+Lemma raw_step_rtpmap l r rest acc d :
+  has_prefix k_m l = false -> has_prefix k_rtpmap l = true ->
+  has_prefix k_fmtp l = false -> has_prefix k_control l = false -> parse_a_rtpmap l = Ok r ->
+  raw_loop (l :: rest) acc (Some d)
+  = raw_loop rest acc (Some {| md_m := md_m d; md_rtpmap := r; md_fmtp := md_fmtp d; md_control := md_control d |}).
+Proof. intros H1 H2 H3 H4 H5. cbn [raw_loop]. rewrite H1, H2, H3, H4, H5. reflexivity. Qed.
+
+Lemma raw_step_fmtp l f rest acc d :
+  has_prefix k_m l = false -> has_prefix k_rtpmap l = false ->
+  has_prefix k_fmtp l = true -> has_prefix k_control l = false -> parse_a_fmtp l = Ok f ->
+  raw_loop (l :: rest) acc (Some d)
+  = raw_loop rest acc (Some {| md_m := md_m d; md_rtpmap := md_rtpmap d; md_fmtp := Some f; md_control := md_control d |}).
+Proof. intros H1 H2 H3 H4 H5. cbn [raw_loop]. rewrite H1, H2, H3, H4, H5. reflexivity. Qed.
+
+Lemma raw_step_control l c rest acc d :
+  has_prefix k_m l = false -> has_prefix k_rtpmap l = false ->
+  has_prefix k_fmtp l = false -> has_prefix k_control l = true -> parse_a_control l = Ok c ->
+  raw_loop (l :: rest) acc (Some d)
+  = raw_loop rest acc (Some {| md_m := md_m d; md_rtpmap := md_rtpmap d; md_fmtp := md_fmtp d; md_control := c |}).
+Proof. intros H1 H2 H3 H4 H5. cbn [raw_loop]. rewrite H1, H2, H3, H4, H5. reflexivity. Qed.
+
+(* a block of lines that opens one media description and fills it *)
+Definition block_ok (ls : list bytes) (d : media_desc) : Prop :=
+  forallb nocrlf ls = true /\
+  forall rest acc md, raw_loop (ls ++ rest) acc md = raw_loop rest (acc ++ optl md) (Some d).
+
+Definition q_sid : bytes := Eval compute in s2b "streamid="%string.
+
+Lemma header_skip tool rest :
+  raw_loop (t_header ++ [t_tool ++ tool] ++ rest) [] None = raw_loop rest [] None.
+Proof.
+  unfold t_header. cbn [app].
+  do 6 rewrite raw_step_plain by reflexivity. reflexivity.
+Qed.
+
+Lemma skeleton tool vl al (vd ad : option media_desc) :
+  nocrlf tool = true ->
+  match vd with Some d => block_ok vl d | None => vl = [] end ->
+  match ad with Some d => block_ok al d | None => al = [] end ->
+  parse_sdp_raw (replace_nl (join_nl (t_header ++ [t_tool ++ tool] ++ vl ++ al))) = Ok (optl vd ++ optl ad).
+Proof.
+  intros Ht Hv Ha.
+  assert (Hvl : forallb nocrlf vl = true) by (destruct vd; [apply Hv|now subst]).
+  assert (Hal : forallb nocrlf al = true) by (destruct ad; [apply Ha|now subst]).
+  assert (Hall : forallb nocrlf (t_header ++ [t_tool ++ tool] ++ vl ++ al) = true).
+  { repeat apply forallb_app_true; try assumption; [reflexivity|].
+    cbn [forallb]. rewrite Bool.andb_true_r. unfold nocrlf in *. apply andb_prop in Ht as [H10 H13].
+    apply andb_true_intro; split; apply nob_app_true; (reflexivity || assumption). }
+  rewrite (replace_nl_join _ Hall). unfold parse_sdp_raw. cbv zeta. rewrite (split_crlf_join _ Hall).
+  rewrite <- !app_assoc. rewrite header_skip.
+  destruct vd as [dv|], ad as [da|].
+  - destruct Hv as [_ Hv], Ha as [_ Ha]. rewrite Hv, Ha. reflexivity.
+  - destruct Hv as [_ Hv]. subst al. rewrite Hv. reflexivity.
+  - destruct Ha as [_ Ha]. subst vl. cbn [app]. rewrite Ha. reflexivity.
+  - subst. reflexivity.
+Qed.
+
 Section PackParse.
   Variable b64_dec hex_dec : bytes -> bytes * bool.
   Variable b64_enc hex_enc : bytes -> bytes.
@@ -458,5 +533,190 @@ Section PackParse.
     change (q_config ++ H) with (32 :: (k_config ++ [61]) ++ H). rewrite trim_space_skip by reflexivity.
     rewrite trim_space_nospace; [now rewrite <- app_assoc|].
     apply forallb_app_true; [reflexivity|now apply clean_nospace].
+  Qed.
+
+  (* ---- a=rtpmap lines ---- *)
+  Lemma rtpmap_aac_line rate : int64 rate ->
+    parse_a_rtpmap (t_rtpmap ++ fmt_d pt_aac ++ t_aac_1 ++ fmt_d rate ++ t_aac_2)
+    = Ok {| rm_pt := 97; rm_name := k_aac; rm_rate := rate; rm_params := q_two |}.
+  Proof.
+    intro Hr.
+    replace (t_rtpmap ++ fmt_d pt_aac ++ t_aac_1 ++ fmt_d rate ++ t_aac_2)
+      with (k_rtpmap ++ 58 :: ([57; 55] ++ 32 :: (k_aac ++ 47 :: (fmt_d rate ++ 47 :: q_two))))
+      by (rewrite <- ?app_assoc; reflexivity).
+    apply parse_a_rtpmap_3; try reflexivity.
+    - apply fmt_d_nob; [exact Hr|discriminate|left; reflexivity].
+    - now apply atoi_fmt_d.
+  Qed.
+
+  Lemma rtpmap_g711_line (ptxt name tname : bytes) pt rate :
+    int64 rate -> nob 32 ptxt = true -> atoi ptxt = (pt, 0) -> nob 47 name = true ->
+    tname = 32 :: name ++ [47] ->
+    parse_a_rtpmap (t_rtpmap ++ ptxt ++ tname ++ fmt_d rate)
+    = Ok {| rm_pt := pt; rm_name := name; rm_rate := rate; rm_params := [] |}.
+  Proof.
+    intros Hr H1 H2 H3 ->.
+    replace (t_rtpmap ++ ptxt ++ (32 :: name ++ [47]) ++ fmt_d rate)
+      with (k_rtpmap ++ 58 :: (ptxt ++ 32 :: (name ++ 47 :: fmt_d rate)))
+      by (cbn [app]; rewrite <- ?app_assoc; reflexivity).
+    apply parse_a_rtpmap_2; try assumption.
+    - apply fmt_d_nob; [exact Hr|discriminate|left; reflexivity].
+    - now apply atoi_fmt_d.
+  Qed.
+
+  (* ---- the parameter-set readers on what the line parsers return ---- *)
+  Lemma sps_pps_of_avc_params fmt s p :
+    parse_sps_pps b64_dec {| fp_format := fmt; fp_params := avc_params (b64_enc s) (b64_enc p) |} = (Some s, Some p).
+  Proof.
+    unfold parse_sps_pps. cbn [fp_params].
+    change (map_get k_sprop (avc_params (b64_enc s) (b64_enc p))) with (Some (b64_enc s ++ [44] ++ b64_enc p)).
+    cbn [app]. rewrite break1_app by (apply clean_nob; [reflexivity|apply b64_clean]).
+    cbv beta iota. now rewrite !b64_rt.
+  Qed.
+
+  Lemma vps_sps_pps_of_hevc_params fmt v s p :
+    parse_vps_sps_pps b64_dec {| fp_format := fmt; fp_params := hevc_params (b64_enc s) (b64_enc p) (b64_enc v) |}
+    = (Some v, Some s, Some p).
+  Proof.
+    unfold parse_vps_sps_pps, dec_param. cbn [fp_params].
+    change (map_get k_sprop_vps (hevc_params (b64_enc s) (b64_enc p) (b64_enc v))) with (Some (b64_enc v)).
+    change (map_get k_sprop_sps (hevc_params (b64_enc s) (b64_enc p) (b64_enc v))) with (Some (b64_enc s)).
+    change (map_get k_sprop_pps (hevc_params (b64_enc s) (b64_enc p) (b64_enc v))) with (Some (b64_enc p)).
+    cbv beta iota. rewrite b64_rt. cbv beta iota. rewrite b64_rt. cbv beta iota. rewrite b64_rt. reflexivity.
+  Qed.
+
+  (* ParseAsc wants at least 4 hex digits: an AudioSpecificConfig shorter than
+     2 bytes is written by Pack but not read back *)
+  Lemma asc_of_aac_params fmt c :
+    parse_asc hex_dec {| fp_format := fmt; fp_params := aac_params (hex_enc c) |}
+    = if 2 <=? lenN c then Some c else None.
+  Proof.
+    unfold parse_asc. cbn [fp_params].
+    change (map_get k_config (aac_params (hex_enc c))) with (Some (hex_enc c)).
+    cbv beta iota. rewrite !hex_len, hex_rt. cbn [fst].
+    replace ((2 * lenN c) mod 2 =? 0) with true by (symmetry; apply N.eqb_eq; lia). cbn [negb orb].
+    rewrite Bool.orb_false_r. destruct (2 <=? lenN c) eqn:E.
+    - apply N.leb_le in E. replace (2 * lenN c <? 4) with false by (symmetry; apply N.ltb_ge; lia). reflexivity.
+    - apply N.leb_gt in E. replace (2 * lenN c <? 4) with true by (symmetry; apply N.ltb_lt; lia). reflexivity.
+  Qed.
+
+  (* ---- the media descriptions Pack's blocks parse to ---- *)
+  Definition vmd_avc (s p : bytes) : media_desc :=
+    {| md_m := {| m_media := k_video; m_pt := 96 |};
+       md_rtpmap := {| rm_pt := 96; rm_name := k_h264; rm_rate := 90000; rm_params := [] |};
+       md_fmtp := Some {| fp_format := 96; fp_params := avc_params (b64_enc s) (b64_enc p) |};
+       md_control := q_streamid0 |}.
+  Definition vmd_hevc (v s p : bytes) : media_desc :=
+    {| md_m := {| m_media := k_video; m_pt := 98 |};
+       md_rtpmap := {| rm_pt := 98; rm_name := k_h265; rm_rate := 90000; rm_params := [] |};
+       md_fmtp := Some {| fp_format := 98; fp_params := hevc_params (b64_enc s) (b64_enc p) (b64_enc v) |};
+       md_control := q_streamid0 |}.
+  Definition amd_aac (rate : Z) (c : bytes) (sid : Z) : media_desc :=
+    {| md_m := {| m_media := k_audio; m_pt := 97 |};
+       md_rtpmap := {| rm_pt := 97; rm_name := k_aac; rm_rate := rate; rm_params := q_two |};
+       md_fmtp := Some {| fp_format := 97; fp_params := aac_params (hex_enc c) |};
+       md_control := q_sid ++ fmt_d sid |}.
+  Definition amd_plain (pt : Z) (name : bytes) (rate : Z) (params : bytes) (sid : Z) : media_desc :=
+    {| md_m := {| m_media := k_audio; m_pt := pt |};
+       md_rtpmap := {| rm_pt := pt; rm_name := name; rm_rate := rate; rm_params := params |};
+       md_fmtp := None;
+       md_control := q_sid ++ fmt_d sid |}.
+
+  Ltac solve_nob :=
+    repeat apply nob_app_true;
+    first [ reflexivity
+          | apply clean_nob; [reflexivity | first [apply b64_clean | apply hex_clean]]
+          | apply fmt_d_nob; [assumption | discriminate | left; reflexivity] ].
+  Ltac solve_nocrlf := unfold nocrlf; apply andb_true_intro; split; solve_nob.
+
+  Lemma block_avc s p :
+    block_ok [t_m_video ++ fmt_d pt_avc; t_rtpmap_h264;
+              t_fmtp_avc_1 ++ b64_enc s ++ [44] ++ b64_enc p ++ t_fmtp_avc_2;
+              t_control ++ fmt_d 0] (vmd_avc s p).
+  Proof.
+    split.
+    - cbn [forallb]. rewrite !Bool.andb_true_iff. repeat split; try reflexivity. solve_nocrlf.
+    - intros rest acc md. cbn [app].
+      rewrite (raw_step_m _ {| m_media := k_video; m_pt := 96 |}) by reflexivity.
+      rewrite (raw_step_rtpmap _ {| rm_pt := 96; rm_name := k_h264; rm_rate := 90000; rm_params := [] |}) by reflexivity.
+      rewrite (raw_step_fmtp _ {| fp_format := 96; fp_params := avc_params (b64_enc s) (b64_enc p) |})
+        by (first [reflexivity | apply fmtp_avc_line; apply b64_clean]).
+      rewrite (raw_step_control _ q_streamid0) by reflexivity.
+      reflexivity.
+  Qed.
+
+  Lemma block_hevc v s p :
+    block_ok [t_m_video ++ fmt_d pt_hevc; t_rtpmap_h265;
+              t_fmtp_hevc_1 ++ b64_enc s ++ t_fmtp_hevc_2 ++ b64_enc p ++ t_fmtp_hevc_3 ++ b64_enc v;
+              t_control ++ fmt_d 0] (vmd_hevc v s p).
+  Proof.
+    split.
+    - cbn [forallb]. rewrite !Bool.andb_true_iff. repeat split; try reflexivity. solve_nocrlf.
+    - intros rest acc md. cbn [app].
+      rewrite (raw_step_m _ {| m_media := k_video; m_pt := 98 |}) by reflexivity.
+      rewrite (raw_step_rtpmap _ {| rm_pt := 98; rm_name := k_h265; rm_rate := 90000; rm_params := [] |}) by reflexivity.
+      rewrite (raw_step_fmtp _ {| fp_format := 98; fp_params := hevc_params (b64_enc s) (b64_enc p) (b64_enc v) |})
+        by (first [reflexivity | apply fmtp_hevc_line; apply b64_clean]).
+      rewrite (raw_step_control _ q_streamid0) by reflexivity.
+      reflexivity.
+  Qed.
+
+  Lemma control_line sid : parse_a_control (t_control ++ fmt_d sid) = Ok (q_sid ++ fmt_d sid).
+  Proof. reflexivity. Qed.
+
+  Lemma block_aac rate c sid : int64 rate -> int64 sid ->
+    block_ok [t_m_audio ++ fmt_d pt_aac; t_b_as;
+              t_rtpmap ++ fmt_d pt_aac ++ t_aac_1 ++ fmt_d rate ++ t_aac_2;
+              t_fmtp ++ fmt_d pt_aac ++ t_fmtp_aac ++ hex_enc c;
+              t_control ++ fmt_d sid] (amd_aac rate c sid).
+  Proof.
+    intros Hr Hs. split.
+    - cbn [forallb]. rewrite !Bool.andb_true_iff. repeat split; try reflexivity; solve_nocrlf.
+    - intros rest acc md. cbn [app].
+      rewrite (raw_step_m _ {| m_media := k_audio; m_pt := 97 |}) by reflexivity.
+      rewrite raw_step_plain by reflexivity.
+      rewrite (raw_step_rtpmap _ {| rm_pt := 97; rm_name := k_aac; rm_rate := rate; rm_params := q_two |})
+        by (first [reflexivity | now apply rtpmap_aac_line]).
+      rewrite (raw_step_fmtp _ {| fp_format := 97; fp_params := aac_params (hex_enc c) |})
+        by (first [reflexivity | apply fmtp_aac_line; apply hex_clean]).
+      rewrite (raw_step_control _ (q_sid ++ fmt_d sid)) by reflexivity.
+      reflexivity.
+  Qed.
+
+  Lemma block_g711 (pt : Z) (name tname : bytes) rate sid :
+    int64 rate -> int64 sid ->
+    nob 32 (fmt_d pt) = true -> atoi (fmt_d pt) = (pt, 0) -> nocrlf (fmt_d pt) = true ->
+    nob 47 name = true -> nocrlf tname = true -> tname = 32 :: name ++ [47] ->
+    block_ok [t_m_audio ++ fmt_d pt; t_rtpmap ++ fmt_d pt ++ tname ++ fmt_d rate; t_control ++ fmt_d sid]
+             (amd_plain pt name rate [] sid).
+  Proof.
+    intros Hr Hs H1 H2 H3 H4 H5 H6. split.
+    - unfold nocrlf in H3, H5. apply andb_prop in H3 as [? ?]. apply andb_prop in H5 as [? ?].
+      cbn [forallb]. rewrite !Bool.andb_true_iff. repeat split; try reflexivity;
+        unfold nocrlf; apply andb_true_intro; split; repeat apply nob_app_true; try assumption; solve_nob.
+    - intros rest acc md. cbn [app].
+      rewrite (raw_step_m _ {| m_media := k_audio; m_pt := pt |}); try reflexivity.
+      + rewrite (raw_step_rtpmap _ {| rm_pt := pt; rm_name := name; rm_rate := rate; rm_params := [] |})
+          by (first [reflexivity | now apply (rtpmap_g711_line _ name tname)]).
+        rewrite (raw_step_control _ (q_sid ++ fmt_d sid)) by reflexivity.
+        reflexivity.
+      + unfold parse_m.
+        change (trim_prefix k_m (t_m_audio ++ fmt_d pt)) with (k_audio ++ 32 :: [48] ++ 32 :: (skipn 10 t_m_audio) ++ fmt_d pt).
+        rewrite split1_app by reflexivity. rewrite split1_app by reflexivity.
+        change (skipn 10 t_m_audio ++ fmt_d pt) with (firstn 7 (skipn 10 t_m_audio) ++ 32 :: fmt_d pt).
+        rewrite split1_app by reflexivity. rewrite (split1_none 32 _ H1). rewrite H2. reflexivity.
+  Qed.
+
+  Lemma block_opus sid : int64 sid ->
+    block_ok [t_m_audio ++ fmt_d pt_opus; t_rtpmap ++ fmt_d pt_opus ++ t_opus; t_control ++ fmt_d sid]
+             (amd_plain 101 k_opus 48000 q_two sid).
+  Proof.
+    intros Hs. split.
+    - cbn [forallb]. rewrite !Bool.andb_true_iff. repeat split; try reflexivity; solve_nocrlf.
+    - intros rest acc md. cbn [app].
+      rewrite (raw_step_m _ {| m_media := k_audio; m_pt := 101 |}) by reflexivity.
+      rewrite (raw_step_rtpmap _ {| rm_pt := 101; rm_name := k_opus; rm_rate := 48000; rm_params := q_two |}) by reflexivity.
+      rewrite (raw_step_control _ (q_sid ++ fmt_d sid)) by reflexivity.
+      reflexivity.
   Qed.
 End PackParse.
